@@ -1,7 +1,7 @@
 (* C13 - Multi-threaded CLI pipelines are correct under every thread schedule. *)
 From Coq Require Import ZArith List Lia Bool Permutation.
 From LZ4V Require Import Gen.Consts Gen.TPoolSites Model.WriteReg Model.TPool Model.Pipeline
-  Proofs.WriteRegProofs Proofs.TPoolProofs Proofs.DecodeRingProofs Proofs.C13Inst.
+  Proofs.WriteRegProofs Proofs.TPoolProofs Proofs.DecodeRingProofs Proofs.CompressProofs Proofs.C13Inst.
 Import ListNotations.
 Local Open Scope Z_scope.
 
@@ -135,6 +135,64 @@ Example C13_no_reuse_nonvacuous :
   let c := dl_cfg 6 in
   match run c (init_state c) [(0,0);(1,0);(0,0);(0,0)]%nat with
   | Some st => (length (live_jobs st), s_viol st, s_mst st) = (2%nat, false, MWaitPush PT)
+  | None => False
+  end.
+Proof. vm_compute. reflexivity. Qed.
+
+(* ------------------------------------------------------------------------------------------------
+   Compression pipelines (legacy -l and LZ4F), main thread + N compression workers + one writer,
+   for EVERY N >= 1, every number of chunks, every schedule and wake-up choice, any queue depths >= 1:
+   [s_out] = the buffers handed to fwrite by LZ4IO_checkWriteOrder so far.
+   C13_inorder_once: in every reachable state the output is a prefix of the sequential output
+   (each block at most once, in input order).  C13_sequential_equiv: in a completed run (main finished, all
+   threads ended) the output IS the sequential output, nothing is left in the write register. *)
+Theorem C13_inorder_once :
+  forall c : cfg,
+    (c_kind c = CompLegacy \/ (c_kind c = CompLZ4F /\ (1 <= c_nfull c)%nat)) ->
+    (1 <= c_N c)%nat -> (1 <= c_tdepth c)%nat -> (1 <= c_wdepth c)%nat ->
+    forall (sched : list pick) (st : state),
+      run c (init_state c) sched = Some st ->
+      exists e : nat, s_out st = firstn e (sequential_output c).
+Proof. exact comp_prefix. Qed.
+Print Assumptions C13_inorder_once.
+
+Theorem C13_sequential_equiv :
+  forall c : cfg,
+    (c_kind c = CompLegacy \/ (c_kind c = CompLZ4F /\ (1 <= c_nfull c)%nat)) ->
+    (1 <= c_N c)%nat -> (1 <= c_tdepth c)%nat -> (1 <= c_wdepth c)%nat ->
+    forall (sched : list pick) (st : state),
+      run c (init_state c) sched = Some st -> final st = true ->
+      s_out st = sequential_output c /\
+      (forall s, In s (wr_buffers (s_wr st)) -> s = None) /\
+      wr_expected (s_wr st) = Z.of_nat (comp_blocks c).
+Proof. exact comp_final. Qed.
+Print Assumptions C13_sequential_equiv.
+
+(* instances at the generated TPool_create depths *)
+Theorem C13_sequential_equiv_legacy :
+  forall (N nfull : nat) (last : bool) (sched : list pick) (st : state), (1 <= N)%nat ->
+    run (cl_cfg N nfull last) (init_state (cl_cfg N nfull last)) sched = Some st ->
+    (exists e, s_out st = firstn e (sequential_output (cl_cfg N nfull last))) /\
+    (final st = true -> s_out st = sequential_output (cl_cfg N nfull last)).
+Proof. exact sequential_equiv_legacy. Qed.
+Print Assumptions C13_sequential_equiv_legacy.
+
+Theorem C13_sequential_equiv_lz4f :
+  forall (N nfull : nat) (last : bool) (sched : list pick) (st : state), (1 <= N)%nat -> (1 <= nfull)%nat ->
+    run (cf_cfg N nfull last) (init_state (cf_cfg N nfull last)) sched = Some st ->
+    (exists e, s_out st = firstn e (sequential_output (cf_cfg N nfull last))) /\
+    (final st = true -> s_out st = sequential_output (cf_cfg N nfull last)).
+Proof. exact sequential_equiv_lz4f. Qed.
+Print Assumptions C13_sequential_equiv_lz4f.
+
+(* hypotheses met: a complete run of LZ4F compression (generated depths, 2 workers, 3 full chunks + a partial one; schedule produced by
+   the extracted model with the "descending" strategy) in which block 1 reaches the write register before block 0 and is
+   stored; the run ends with the sequential output *)
+Example C13_sequential_equiv_nonvacuous :
+  let c := cf_cfg 2 3 true in
+  match run c (init_state c)
+    [(0,3);(1,3);(3,3);(0,3);(0,3);(2,0);(2,3);(2,3);(2,3);(2,3);(2,3);(0,3);(3,3);(2,0);(3,3);(3,3);(2,3);(2,3);(2,3);(2,3);(2,3);(2,3);(3,3);(3,3);(3,3);(2,3);(0,3);(1,3);(2,0);(3,3);(3,3);(3,3);(2,3);(2,3);(2,3);(2,3);(3,3);(3,3);(3,3);(2,3);(2,3);(1,3);(1,3);(0,3);(0,3);(0,3);(0,3);(2,3);(2,3);(1,3);(1,3);(0,3);(0,3);(3,3);(3,3);(0,3)]%nat with
+  | Some st => (final st, s_out st, s_err st) = (true, [[0];[1];[2];[3]], false)
   | None => False
   end.
 Proof. vm_compute. reflexivity. Qed.
